@@ -325,3 +325,16 @@ Theorem C19_random_client_id_is_source : forall ids cdb len clock,
   = match pick_id ids cdb with Ok k => Ok (VStr k) | Err e => Err e | Unmodelled => Unmodelled end.
 Proof. exact Src_refine_reg.random_client_id_refines. Qed.
 Print Assumptions C19_random_client_id_is_source.
+
+(* TIE BY TRANSLATION: idpyoidc.util.split_uri as it reads in /repo/src NOW (coq/Gen/Src_uri.v, regenerated by
+   harness/py2v.py on every run) computes the model's split_uri (the stored form of every registered URI).
+   The three urllib.parse functions it calls are parameters of the translation, instantiated with the urllib model of
+   Model/RegUri.v (validated against CPython on every run); the statement is about the glue: the fragment and the query
+   are dropped from the base, the base is re-assembled from this URI's own scheme / netloc / path, the second component
+   is parse_qs of this URI's own query, or None when there is none. *)
+From Verif Require Lib.PyOps Gen.Src_uri Proofs.Src_refine_uri.
+Theorem C19_split_uri_is_source : forall uri clock,
+  Src_uri.split_uri_src Src_refine_uri.env_parse_qs Src_refine_uri.env_urlsplit Src_refine_uri.env_urlunsplit (VStr uri) clock
+  = Src_refine_uri.lift_pv (RegUri.split_uri uri) Src_refine_uri.inject_split_uri.
+Proof. exact Src_refine_uri.split_uri_refines. Qed.
+Print Assumptions C19_split_uri_is_source.
